@@ -328,7 +328,12 @@ void ScriptPointer::setValueRef(ScriptVariable& var, const ScriptVariable& ignor
             // because otherwise it would call ClearInternal()
             // which will delete this ScriptPointer
             pVar->type = variableType_e::None;
-            *pVar = const_cast<const ScriptVariable&>(var);
+
+            if (pVar != &ignoredVar)
+            {
+                // like above, the variable that only kept this script pointer alive gets no copy
+                *pVar = const_cast<const ScriptVariable&>(var);
+            }
         }
     }
 
